@@ -62,6 +62,9 @@ pub const EXTRA: &[&str] = &[
     "from t | take 9223372036854775807",
     "from t | group a (sort b | take 4294967296)",
     "from t | select {x = a + 4294967296, y = 9223372036854775807}",
+    // a joined sub-pipeline that exposes the name `a` twice (recorded finding, see C16)
+    "let q = (from t | select {a, b})\nfrom q | join u (==a) | join r=(from u | join l=q (u.d == l.b)) true | select {q.a, r.b}",
+    "let q = (from t | select {a, b})\nfrom t | join r=(from u | join l=q (u.d == l.b)) (t.a == r.d) | select {t.a, r.d, r.b}",
     // a `let` relation read more than once, first as the bottom of a set operation
     "let q = (from t | filter a > 1 | select {a, b})\nfrom u | select {a, d} | append q | append q",
     "let q = (from t | filter a > 1 | select {a, b})\nfrom u | select {a, d} | append q | join q (==a) | select {u.a, q.b}",
@@ -175,6 +178,9 @@ fn cause(key: &str, d: &str, msg: &str, sql: &str, src: &str) -> String {
     }
     if key == "engine-rejects" && d == "sqlite" && msg.contains("circular reference") && sql.contains("WITH RECURSIVE") {
         return "loop-body-reads-recursive-table-inside-subquery:sqlite".into();
+    }
+    if src.contains("join u (==a) | join r=(from u | join l=q (u.d == l.b))") && (key == "qualifier-not-in-scope" || key == "engine-rejects" || key == "column-not-in-known-relation") {
+        return "joined-sub-pipeline-exposes-a-name-twice".into();
     }
     if key == "qualifier-not-in-scope" && sql.contains("ORDER BY") && src.contains("sort") && src.contains("join") {
         return "orderby-names-relation-out-of-scope-after-join".into();
